@@ -11,7 +11,7 @@ RULE = ("Hypothesis-constructed handshake-consistent joint degree sequences x mo
         "instances in total and some motif with >= 2 instances; distinct = distinct canonical JSON of the case")
 ASSUMPTIONS = ["every column of the joint degree sequence belongs to exactly one motif (as in the suite's fixtures)",
                "build callbacks are called synchronously once per motif instance (journalled by wrapper callbacks)"]
-BUDGET = {"quick": (16, 300), "thorough": (16, 5000)}
+BUDGET = {"quick": (16, 300), "thorough": (16, 15000)}
 
 
 def strategy(tier):
